@@ -332,7 +332,9 @@ func (in *b08Inst) Apply(evl string, _ *mc.Env) (string, error) {
 				Request: store.AppendLeaderRequest{Records: []ch.Record{toks[ci].record()}, ServerAllocatedMessageIDs: allocated}}
 			wants[ci] = in.want(ci, toks[ci], allocated)
 		}
-		crossDup := !allocated && toks[0].id == toks[1].id && wants[0] == "" && wants[1] == ""
+		// the same id in both items of one strict batch: refusing either item (even one whose
+		// sibling is refused for another reason) is within the property; storing both is not
+		crossDup := !allocated && toks[0].id == toks[1].id
 		out := in.be.f.AppendLeaderBatch(b08Ctx, items)
 		if len(out) != 2 {
 			return "", mc.Violatef("C08:adapter-batch-result-count", "%s: %d results", evl, len(out))
@@ -354,7 +356,7 @@ func (in *b08Inst) Apply(evl string, _ *mc.Env) (string, error) {
 				return "", mc.Violatef("C08:adapter-valid-append-refused", "%s: item %s refused with %v", evl, in.ch[ci].name, out[ci].Err)
 			}
 		}
-		if crossDup {
+		if crossDup && wants[0] == "" && wants[1] == "" {
 			b08nBatchCrossDup.Add(1)
 			if okCount == 2 {
 				return "", mc.Violatef("C08:message-id-stored-twice:same-batch-other-channel",
